@@ -136,6 +136,11 @@ class Run:
                     m_ = re.match(r'^<?(\w+)::', function or '')
                     if m_ and m_.group(1).startswith('yash_') and m_.group(1) not in built:
                         return
+                    if loc is None:
+                        # a report without a source location complains about something that is ABSENT ("no longer calls ..",
+                        # "no option table ..."): in a configuration that compiles part of the code that is expected; the
+                        # default and all-features configurations decide it
+                        return
                     _report(function, descriptor, message, loc=loc, path=path)
                 cx.violation = _filtered
             try:
